@@ -486,6 +486,10 @@ func GetViaBrSig(viab []byte) (StrSigId, int) {
 	if offs == -1 {
 		return 0, 0 // no params
 	}
+	if c := bytes.IndexByte(viab, ','); c != -1 && c < offs {
+		// the 1st via has no params (the ';' belongs to a later via value)
+		return 0, 0
+	}
 	offs++ // skip over ';'
 parse_params:
 	for {
